@@ -3,6 +3,9 @@
 import json, os
 HERE = os.path.dirname(os.path.abspath(__file__))
 CLAIMED = {
+ 'C13': ('proof', 'band_update_stats and band_choose_hello_time interpreted with r, prior count and begun symbolic: on every path the stored count is shown equal to min(NMAX, ALPHA*r^BETA) by polynomial identity plus path constraints, every unsigned wrap on the data path is reported, and the interval is shown to be exactly ceil(80*Ni/30) (both bounds) - covering all r in [0,2^32) at once; monotonicity follows from the exact formulas.',
+         'clang AST, lltdsa engine (interval + linear entailment with div/mod axioms), RepeatBand constants from the documentation in oracle.BAND',
+         'abstract interpretation with polynomial terms; interval/linear entailment; wrap detection', '4 (C13)'),
  'C14': ('proof', 'Constructor table and switch function of the mapping engine are interpreted abstractly over every int input and symbolic elapsed time; the complete transition relation (3 states x [-128,255] x {fresh,expired}) and the tick inactivity branch are compared with the oracle. Exhaustive over the single-step quantifier; histories follow by induction on (state,last timestamp).',
          'clang AST, lltdsa engine, oracle.mapping_step, monotone clock > 0',
          'abstract interpretation of real constructor/switch/tick code; relation vs oracle', '4 (C14)'),
